@@ -25,6 +25,7 @@ CONSTANTS
   Acts,         \* enabled edit actions
   Focus,        \* field names whose scalar "scalar" edits may restyle
   Sim,          \* BOOLEAN: random choices (for -simulate)
+  ReplayFile,   \* "" or the name of a JSON file holding one layout: the start layout of a replay
   Clean         \* BOOLEAN: leave out the scalar classes on which C06 has open findings (used by C19)
 
 VARIABLES lay, n
@@ -89,13 +90,13 @@ FLab1  == MapItem("labels", FALSE, 2, <<KV("severity", ScDef, Sc("one"))>>)
 FAnn   == MapItem("annotations", FALSE, 2, <<KV("summary", ScDef, Sc("spaces"))>>)
 FRec   == ScalarItem("record", Sc("one"))
 FLab2  == MapItem("labels", FALSE, 2, <<KV("team", ScDef, Sc("one"))>>)
-Rule1 == [items |-> CASE BaseVar = 1 -> <<FAlert, FExpr, FLab1, FAnn, FFor>>
+Rule1 == [RuleDef EXCEPT !.items = CASE BaseVar = 1 -> <<FAlert, FExpr, FLab1, FAnn, FFor>>
                       [] BaseVar = 2 -> <<FAlert, FExpr, FFor, FLab1, FAnn, FKff>>
                       [] OTHER       -> <<FAlert, FExpr, FFor, FLab1, FAnn>>]
-Rule2 == [items |-> IF BaseVar = 1 THEN <<FRec, FLab2, FExpr>> ELSE <<FRec, FExpr, FLab2>>]
-Base  == [base |-> "doc", pre |-> <<>>, gi |-> GI0, rstep |-> RS0, rules |-> <<Rule1, Rule2>>, wrap |-> WrNone]
+Rule2 == [RuleDef EXCEPT !.items = IF BaseVar = 1 THEN <<FRec, FLab2, FExpr>> ELSE <<FRec, FExpr, FLab2>>]
+Base  == [base |-> "doc", pre |-> <<>>, ghdr |-> <<>>, gi |-> GI0, rstep |-> RS0, rules |-> <<Rule1, Rule2>>, wrap |-> WrNone]
 
-Init == lay = Base /\ n = 0
+Init == lay = (IF ReplayFile = "" THEN Base ELSE JsonDeserialize(ReplayFile)) /\ n = 0
 
 IsField(it) == it.kind \in {"scalar", "map"}
 SetItem(r, i, it) == [lay EXCEPT !.rules[r].items[i] = it]
@@ -133,8 +134,18 @@ EditSwap ==
     /\ IsField(a) /\ IsField(b)
     /\ lay' = [lay EXCEPT !.rules[r].items[i] = b, !.rules[r].items[i + 1] = a]
 
+NoAlias == \A k \in DOMAIN lay.rules : lay.rules[k].alias = 0 /\ ~lay.rules[k].anchor
+GroupKeys == {[k |-> "interval", t |-> "interval: 1m"], [k |-> "limit", t |-> "limit: 10"], [k |-> "limit", t |-> "limit: 1_000"],
+              [k |-> "limit", t |-> "limit: 0x40"], [k |-> "query_offset", t |-> "query_offset: 30s"]}
 EditAdd ==
-  \E r \in Pick(DOMAIN lay.rules) :
+  \E r \in Pick({k \in DOMAIN lay.rules : lay.rules[k].alias = 0}) :
+    \* anchor rule r and repeat it at the end of the list as an alias
+    \/ /\ ~lay.rules[r].anchor /\ Len(lay.rules) < 4
+       /\ lay' = [lay EXCEPT !.rules = Append([@ EXCEPT ![r].anchor = TRUE], [RuleDef EXCEPT !.alias = r])]
+    \* one more key in the group header
+    \/ /\ lay.base = "doc" /\ Len(lay.ghdr) < 2
+       /\ \E g \in Pick(GroupKeys) : /\ \A k \in DOMAIN lay.ghdr : lay.ghdr[k].k # g.k
+                                    /\ lay' = [lay EXCEPT !.ghdr = Append(@, g)]
     \/ /\ RuleType(lay.rules[r]) = "alerting"
        /\ \A i \in DOMAIN lay.rules[r].items : lay.rules[r].items[i].k # "keep_firing_for"
        /\ lay' = [lay EXCEPT !.rules[r].items = Append(@, ScalarItem("keep_firing_for", ScDef))]
@@ -145,11 +156,11 @@ EditAdd ==
          \/ /\ ~it.flow /\ \A j \in DOMAIN it.kvs : FlowOK(it.kvs[j].v)
             /\ lay' = SetItem(r, i, [it EXCEPT !.flow = TRUE])
          \/ /\ ~it.flow /\ it.mstep = 2 /\ lay' = SetItem(r, i, [it EXCEPT !.mstep = 4])
-    \/ /\ Len(lay.rules) = 2 /\ lay' = [lay EXCEPT !.rules = <<@[r]>>]
+    \/ /\ Len(lay.rules) = 2 /\ NoAlias /\ lay' = [lay EXCEPT !.rules = <<@[r]>>]
 
 EditBase ==
   /\ lay.base = "doc"
-  /\ lay' = [lay EXCEPT !.base = "list", !.pre = <<>>, !.gi = 0, !.rstep = 0]
+  /\ lay' = [lay EXCEPT !.base = "list", !.pre = <<>>, !.ghdr = <<>>, !.gi = 0, !.rstep = 0]
 
 WrapKeys == {"spec", "rules", "data"}
 \* YAML validity: a mapping under a key is indented more than the key; a sequence may sit at the key's column
@@ -157,12 +168,13 @@ WrapOK(b, w) ==
   /\ \A i \in DOMAIN w.levels :
        /\ w.levels[i].step = 0 => /\ i = Len(w.levels) /\ b = "list" /\ ~w.embed
        /\ w.levels[i].sibB => ~(i > 1 /\ w.levels[i - 1].step = 0)
+       /\ w.levels[i].sl => (w.levels[i].sibB \/ w.levels[i].sibA)
   /\ w.embed => w.levels # <<>>
 EditWrap ==
   \E w \in Pick({ [lay.wrap EXCEPT !.levels = <<lv>> \o @] :
-                    lv \in [seq : BOOLEAN, key : WrapKeys, step : {2, 4}, sibB : BOOLEAN, sibA : BOOLEAN] })
+                    lv \in [seq : BOOLEAN, key : WrapKeys, step : {2, 4}, sibB : BOOLEAN, sibA : BOOLEAN, sl : BOOLEAN] })
           \cup Pick({ [lay.wrap EXCEPT !.levels = @ \o <<lv>>] :
-                    lv \in [seq : BOOLEAN, key : WrapKeys, step : {0, 2, 4}, sibB : BOOLEAN, sibA : BOOLEAN] })
+                    lv \in [seq : BOOLEAN, key : WrapKeys, step : {0, 2, 4}, sibB : BOOLEAN, sibA : BOOLEAN, sl : BOOLEAN] })
           \cup { [lay.wrap EXCEPT !.embed = ~@], [lay.wrap EXCEPT !.docB = ~@], [lay.wrap EXCEPT !.docA = ~@] } :
     /\ Len(w.levels) <= 4
     /\ WrapOK(lay.base, w)
@@ -215,7 +227,7 @@ LinesOK(R) ==
        /\ \A k \in DOMAIN R.rules[i].nodes :
             /\ R.rules[i].first <= R.rules[i].nodes[k].allow[1].l
             /\ R.rules[i].nodes[k].lastc <= R.rules[i].last
-  /\ \A i \in 1..(Len(R.rules) - 1) : R.rules[i].last < R.rules[i + 1].first
+  /\ \A i \in 1..(Len(R.rules) - 1) : R.rules[i + 1].alias \/ R.rules[i].last < R.rules[i + 1].first
 
 \* displacement: line l of the unwrapped document is line l + dLine of the file, indented by dCol
 Displaced(R, embed) ==
